@@ -67,7 +67,7 @@ def dds_hash(x: Any) -> PyHash:
     type has been flagged in an accepted module.
 
     """
-    max_sequence_size: int = get_option("hash.max_sequence_size")
+    max_sequence_size: Optional[int] = get_option("hash.max_sequence_size")
 
     # Some hints for tracing the offending object.
     trace: Deque[Union[int, str]] = deque()
@@ -76,7 +76,8 @@ def dds_hash(x: Any) -> PyHash:
         return ".".join([str(i) if not isinstance(i, str) else i for i in list(trace)])
 
     def check_len(x: Any) -> None:
-        if len(x) > max_sequence_size:
+        # (the option accepts None: no limit)
+        if max_sequence_size is not None and len(x) > max_sequence_size:
             raise DDSException(
                 f"Object of type {type(x)} is a sequence of length {len(x)}. "
                 f"Only sequences of length less than {max_sequence_size} are supported. "
